@@ -340,7 +340,8 @@ fn main() {
     fv::quiet_panics();
     let mode = fv::arg_str("mode", "random");
     let mut out = Out::create(&fv::arg_str("out", "/dev/stdout"));
-    let mut rng = Rng::new(fv::seed_from_env() ^ 0xC18);
+    // --salt separates the streams of several recorder jobs of one run (same VERIF_SEED)
+    let mut rng = Rng::new(fv::seed_from_env() ^ 0xC18 ^ (fv::arg_u64("salt", 0) << 20));
     match mode.as_str() {
         "random" => {
             for sid in 0..fv::arg_u64("n", 50) {
